@@ -571,6 +571,12 @@ type c28Sym struct{ name, id string }
 // initial, i.e. not starting with a lower-case letter), and distinct symbols have distinct IDs.
 // Symbols in the two known defect classes are reported with their stable tokens (a few times only).
 func (c *Ctx) c28CheckSyms(ans string, syms []c28Sym, numTokens int, toks []c28Tok, src string, findings bool) {
+	c.c28CheckSymsMid(ans, syms, numTokens, toks, nil, src, findings)
+}
+
+// midrule: names of the mid-rule action nonterminals among syms (third known defect class: their IDs are
+// never compared with those of other symbols).
+func (c *Ctx) c28CheckSymsMid(ans string, syms []c28Sym, numTokens int, toks []c28Tok, midrule []string, src string, findings bool) {
 	if !strings.HasPrefix(ans, "ok ") {
 		return
 	}
@@ -586,10 +592,19 @@ func (c *Ctx) c28CheckSyms(ans string, syms []c28Sym, numTokens int, toks []c28T
 			c.Violate(what+" "+token, src)
 		}
 	}
+	isMid := map[string]bool{}
+	for _, m := range midrule {
+		isMid[m] = true
+	}
 	seen := map[string]string{}
 	for i, s := range syms {
 		if prev, ok := seen[s.id]; ok {
-			c.Violate(fmt.Sprintf("compiler.Compile reports no error although the symbols %q and %q get the same ID %q", prev, s.name, s.id), src)
+			what := fmt.Sprintf("compiler.Compile reports no error although the symbols %q and %q get the same ID %q", prev, s.name, s.id)
+			if isMid[s.name] || isMid[prev] {
+				known("[C28-midrule-id-unchecked]", what)
+			} else {
+				c.Violate(what, src)
+			}
 		}
 		seen[s.id] = s.name
 		terminal := i < numTokens
@@ -684,8 +699,12 @@ func c28(c *Ctx) {
 		"Harness oracle (from the property text): a lexer-admitted name whose Produce result is not a valid identifier; for a grammar compiled without error, EVERY symbol " +
 		"(terminals with derived and explicit IDs, nonterminals) must have a non-blank identifier valid in Go/C++/TS in the requested style (terminals [A-Z0-9_]+, nonterminals not starting with a lower-case letter) " +
 		"and distinct symbols distinct IDs. " +
-		"Two known defect classes stay in both streams, are compared against the model and reported with stable tokens: [C28-degenerate-name] (names '' \"\" and unquoted names of '_'/'-' only) and " +
-		"[C28-explicit-id-verbatim] (explicit (ID) without lower-case letters containing '-' or being '_' is taken verbatim); VERIF_FINDINGS=1 reports every occurrence."
+		"gen: grammars whose nonterminals are generated after declaration — template instances (x<+B> → x_B, two flags instantiated several ways), groups (y$1), lists (D_list, B_list_C_separated, C_optlist), " +
+		"optionals (copt) and mid-rule action nonterminals (u$1) from 12 rule shapes over short names; each grammar is compiled once to learn the generated names and IDs, then again with an added terminal " +
+		"(name spelled so that its upper-case ID equals a generated ID, or an explicit ID) or an added declared nonterminal with a colliding camel-case ID; the model gets the declarations plus the names of the expanded model " +
+		"(the expander is not modelled) and must reproduce Syms[].ID / the error list; the every-symbol oracle runs on ALL of g.Syms incl. generated ones. " +
+		"Known defect classes stay in the streams, are compared against the model and reported with stable tokens: [C28-degenerate-name] (names '' \"\" and unquoted names of '_'/'-' only) and " +
+		"[C28-explicit-id-verbatim] (explicit (ID) without lower-case letters containing '-' or being '_' is taken verbatim), [C28-midrule-id-unchecked] (mid-rule nonterminal IDs such as U_1 are never compared with other IDs); VERIF_FINDINGS=1 reports every occurrence."
 	// 0. probes of the known defect classes on the real compiler.Compile (reported once, with stable tokens)
 	for _, pr := range []struct {
 		toks []c28Tok
@@ -697,6 +716,7 @@ func c28(c *Ctx) {
 		c.c28GrammarCase(pr.toks, pr.nts, false, findings)
 		c.c28GrammarCase(pr.toks, pr.nts, true, findings)
 	}
+	c.c28GenProbe(findings)
 	// 1. exhaustive single-byte quoted names
 	for b := 0; b < 256; b++ {
 		if b == '\n' {
@@ -749,5 +769,10 @@ func c28(c *Ctx) {
 	g := c.N(1500, 60000)
 	for i := 0; i < g; i++ {
 		c.c28Grammar(findings)
+	}
+	// 3. grammars with generated nonterminals (template instances, groups, lists, optionals, mid-rule actions)
+	g = c.N(1200, 40000)
+	for i := 0; i < g; i++ {
+		c.c28Generated(findings)
 	}
 }
